@@ -371,12 +371,38 @@ impl World {
 
     fn build_own(&self, kind: OwnKind, cont: ContKind, lids: &[Lid], ctor: Ctor, poison: bool, sched: &Sched) -> Result<Node, BuildErr> {
         let mk = |l: &Lid| Leaf::new(self.spec.leaves[*l], Pay::new(*l, INIT_VAL));
+        #[allow(unused_imports)]
+        use crate::caps::BoundNo as _;
+        // a boxed collection can be extended only if the library says so
+        let boxed_extend = crate::caps::bound::<BoxedLockCollection<CL>, Leaf>().implements_extend();
+        let ctor = match ctor {
+            Ctor::NewThenExtend(_) | Ctor::NewThenExtendPanicky(_) if kind == OwnKind::Boxed && !boxed_extend => Ctor::New,
+            Ctor::NewThenExtend(_) | Ctor::NewThenExtendPanicky(_) if kind == OwnKind::Ref => Ctor::New,
+            c => c,
+        };
+        let panicky = matches!(ctor, Ctor::NewThenExtendPanicky(_));
         let (first, rest): (&[Lid], &[Lid]) = match ctor {
-            Ctor::NewThenExtend(k) => lids.split_at(lids.len() - k.min(lids.len())),
+            Ctor::NewThenExtend(k) | Ctor::NewThenExtendPanicky(k) => lids.split_at(lids.len() - k.min(lids.len())),
             _ => (lids, &[]),
         };
+        // the items for `extend`; optionally the iterator panics after its last item
+        struct Items(std::vec::IntoIter<Leaf>, bool);
+        impl Iterator for Items {
+            type Item = Leaf;
+            fn next(&mut self) -> Option<Leaf> {
+                match self.0.next() {
+                    Some(l) => Some(l),
+                    None if self.1 => {
+                        self.1 = false;
+                        std::panic::resume_unwind(Box::new(crate::interp::Injected))
+                    }
+                    None => None,
+                }
+            }
+        }
+        let items = |rest: &[Lid]| Items(rest.iter().map(mk).collect::<Vec<Leaf>>().into_iter(), panicky);
         let data: CL = match ctor {
-            Ctor::FromIter | Ctor::NewThenExtend(_) => Cont::V(first.iter().map(mk).collect()),
+            Ctor::FromIter | Ctor::NewThenExtend(_) | Ctor::NewThenExtendPanicky(_) => Cont::V(first.iter().map(mk).collect()),
             _ => Cont::build(cont, first.iter().map(mk).collect()),
         };
         let bad = |m: &str| BuildErr::Bad(format!("own target: {}", m));
@@ -399,14 +425,18 @@ impl World {
         }
         Ok(match kind {
             OwnKind::Boxed => {
-                let c: BoxedLockCollection<CL> = match ctor {
-                    Ctor::New => BoxedLockCollection::new(data),
+                let mut c: BoxedLockCollection<CL> = match ctor {
+                    Ctor::New | Ctor::NewThenExtend(_) | Ctor::NewThenExtendPanicky(_) => BoxedLockCollection::new(data),
                     Ctor::From => BoxedLockCollection::from(data),
                     Ctor::FromIter => data.into_vec().into_iter().collect(),
                     Ctor::TryNew => BoxedLockCollection::try_new(data).ok_or_else(|| bad("try_new rejected owned data"))?,
-                    Ctor::NewThenExtend(_) => return Err(bad("boxed collections cannot be extended")),
                     Ctor::Default => BoxedLockCollection::default(),
                 };
+                if !rest.is_empty() {
+                    let mut it = items(rest);
+                    let b = crate::caps::bound::<BoxedLockCollection<CL>, Leaf>();
+                    let _ = std::panic::catch_unwind(std::panic::AssertUnwindSafe(|| b.extend_from(&mut c, &mut it)));
+                }
                 reg(c.child().members(), false);
                 if poison {
                     Node::POwnBoxed(Box::new(Poisonable::new(c)))
@@ -416,14 +446,15 @@ impl World {
             }
             OwnKind::Retry => {
                 let mut c: RetryingLockCollection<CL> = match ctor {
-                    Ctor::New | Ctor::NewThenExtend(_) => RetryingLockCollection::new(data),
+                    Ctor::New | Ctor::NewThenExtend(_) | Ctor::NewThenExtendPanicky(_) => RetryingLockCollection::new(data),
                     Ctor::From => RetryingLockCollection::from(data),
                     Ctor::FromIter => data.into_vec().into_iter().collect(),
                     Ctor::TryNew => RetryingLockCollection::try_new(data).ok_or_else(|| bad("try_new rejected owned data"))?,
                     Ctor::Default => RetryingLockCollection::default(),
                 };
                 if !rest.is_empty() {
-                    c.extend(rest.iter().map(mk));
+                    let mut it = items(rest);
+                    let _ = std::panic::catch_unwind(std::panic::AssertUnwindSafe(|| c.extend(&mut it)));
                 }
                 if poison {
                     let mut b = Box::new(Poisonable::new(c));
@@ -437,13 +468,14 @@ impl World {
             }
             OwnKind::Owned => {
                 let mut c: Unit = match ctor {
-                    Ctor::New | Ctor::TryNew | Ctor::NewThenExtend(_) => OwnedLockCollection::new(data),
+                    Ctor::New | Ctor::TryNew | Ctor::NewThenExtend(_) | Ctor::NewThenExtendPanicky(_) => OwnedLockCollection::new(data),
                     Ctor::From => OwnedLockCollection::from(data),
                     Ctor::FromIter => data.into_vec().into_iter().collect(),
                     Ctor::Default => OwnedLockCollection::default(),
                 };
                 if !rest.is_empty() {
-                    c.extend(rest.iter().map(mk));
+                    let mut it = items(rest);
+                    let _ = std::panic::catch_unwind(std::panic::AssertUnwindSafe(|| c.extend(&mut it)));
                 }
                 if poison {
                     let mut b = Box::new(Poisonable::new(c));
